@@ -1,0 +1,20 @@
+//go:build verif
+
+package dhcp
+
+import (
+	"net"
+
+	"github.com/insomniacslk/dhcp/dhcpv4"
+)
+
+// Verification seams for property C09 (decoder hammer in /verif): exported
+// wrappers around unexported functions, no behaviour of their own.
+
+// VerifC09HandleDHCP calls the real slow-path handler (what server4 invokes per packet).
+func (s *Server) VerifC09HandleDHCP(conn net.PacketConn, peer net.Addr, req *dhcpv4.DHCPv4) {
+	s.handleDHCP(conn, peer, req)
+}
+
+// VerifC09ParseOption82 calls the real Option 82 parser.
+func VerifC09ParseOption82(req *dhcpv4.DHCPv4) *RelayAgentInfo { return parseOption82(req) }
